@@ -21,10 +21,15 @@ CLAIMS = {
                   "strings of length ≤3 (quick) / ≤4 (thorough) over a 30-character alphabet plus truncations/mutations/Unicode; CLI oracle "
                   "checks one `<path>:<l>:<c>: msg` diagnostic, status 103, empty stdout, line bound, read errors for invalid UTF-8.",
              ref="§6 C03", technique="Lean 4 theorems on the lexer model + exhaustive short-input tok/ast correspondence + CLI format oracle"),
- "C07": dict(text="Lean theorems on the evaluator model for jumps; run-level correspondence and a model-free plan interpreter predicting the "
+ "C07": dict(text="Lean theorems on the evaluator model: a jump escapes any context of prefixes, blocks and taken branches "
+                  "unchanged (`jump_through_ctx`), `break`/`continue`/`return` inside a `while`/`for` body act on exactly that loop (exit, "
+                  "re-test / next pair, propagate) through any such context and for nested loops the innermost one "
+                  "(`break_targets_innermost`), the call boundary (`call_boundary`: return value, null, located error for an escaping "
+                  "break/continue, no escape ever reaches the caller's statements), `return_ends_call`; run-level correspondence and a model-free plan interpreter predicting the "
                   "trace of every nesting (depth ≤3/≤4) of block/if/else-if/while/for/call with break/continue/return at the innermost "
-                  "position, every truth assignment of if-chains, and loop bodies mutating the iterated container.",
-             ref="§6 C07", technique="Lean 4 theorems on the evaluator model + exhaustive jump-nesting correspondence + plan-interpreter oracle"),
+                  "position, every truth assignment of if-chains with full and empty branches, loop bodies mutating the iterated "
+                  "container, pairs kept past their iteration.",
+             ref="§6 C07", technique="Lean 4 theorems on the evaluator model (jump contexts, loops as targets, call boundary) + exhaustive jump-nesting correspondence + plan-interpreter oracle"),
  "C11": dict(text="Lean theorems on the sequence primitives of the model (take/drop algebra of slicing and range assignment); exhaustive "
                   "run-level correspondence over all lists/strings of length ≤4/≤5 × all indices/bounds in [-2,len+2] incl. omitted × read / "
                   "element assign / range assign; Python slicing with explicit domains is the model-free oracle.",
@@ -39,7 +44,9 @@ CLAIMS = {
 
  "C01": dict(text="The Lean evaluator is the independent executable reading of docs/features.md. Theorems: the meaning of a terminating "
                   "program does not depend on the fuel (G1, all 23 evaluator functions), statement sequences compose (seq_compose), an "
-                  "escaping statement cuts the sequence. Tie: the model and the implementation must both reproduce the maintainers' "
+                  "escaping statement cuts the sequence, statement lists that are equivalent up to fuel are interchangeable in every "
+                  "statement context (`stmt_ctx_congr_upto`; the fuel-exact form holds exactly under a side condition, with a "
+                  "counterexample otherwise). Tie: the model and the implementation must both reproduce the maintainers' "
                   "expectations of all 336 suite scripts, every `print(…) # x` expectation of the documentation is checked on the "
                   "implementation (model-free), and on generated programs a CLI-confirmed difference between implementation and model "
                   "in stdout / status / diagnostic is a violation with the shrunk program as replay.",
@@ -64,10 +71,13 @@ CLAIMS.update({
                   "{0,103}, no panic.",
              ref="§6 C02", technique="Lean 4 invariant proof (well-formedness ⇒ no crash) over the evaluator model + differential correspondence + crash oracle"),
  "C03": dict(text="Lean theorems: the lexer always makes progress and its fuel is always enough; the parser's fuel is always enough "
-                  "(`parse_total`, potential-function argument over all 22 parser functions): the front end decides every input; every "
-                  "reported line lies in 1..1+#newlines. Tie: token- and tree-level correspondence, exhaustive over all strings of length "
+                  "(`parse_total`, potential-function argument over all 22 parser functions): the front end decides every input; the token "
+                  "a syntax error names is a token of the input (`errAll`), so every reported line lies in 1..1+#newlines "
+                  "(`syntax_error_line_bound`); a rejected input prints nothing, fails, and its diagnostic is exactly "
+                  "`<path>:<l>:<c>: <msg>` at every fuel (`syntax_error_no_output`, `diag_format`); only evaluation can time out. Tie: token- and tree-level correspondence, exhaustive over all strings of length "
                   "≤3/≤4 over a 34-character alphabet (incl. non-ASCII numerics and spaces) plus truncations/mutations/Unicode; CLI oracle: one `<path>:<l>:<c>: msg` "
-                  "diagnostic, status 103, empty stdout, line bound, read error for invalid UTF-8.",
+                  "diagnostic, status 103, empty stdout, line bound, read error for invalid UTF-8; an accepted file is lexed whole (the "
+                  "implementation's own token spans cover everything but white space, comments and terminators).",
              ref="§6 C03", technique="Lean 4 totality/progress theorems on lexer and parser models + exhaustive short-input tok/ast correspondence + CLI format oracle"),
  "C04": dict(text="Lean theorems on scope lookup/assign/declare (innermost wins, nearest is updated, only the top scope is declared in, "
                   "shadowing frame), fresh scope per block/branch/iteration/call, closures store the defining chain itself, `evalCall` "
@@ -86,8 +96,10 @@ CLAIMS.update({
                   "right-hand side that leaves the target unchanged (through the evaluator, using G1). Tie + Python big-integer oracle on the "
                   "boundary grid × operators × plain/op-assign forms, random 64-bit pairs, literals and ranges.",
              ref="§6 C06", technique="Lean 4 exactness theorems on the arithmetic model + boundary-grid correspondence + big-integer oracle"),
- "C08": dict(text="Lean theorems: print/parse round trip `parse (print e) = e` for all trees over atoms, the 15 binary operators and `..` "
-                  "(minimal parentheses, arbitrary positions, with the driver's fuel), left-associativity, tighter-tier-first, `..` loosest, "
+ "C08": dict(text="Lean theorems: print/parse round trip for the WHOLE grammar — `parseStmts (print p) = p` up to positions for every "
+                  "well-formed program (operators, `..`, postfix forms, list/object/function literals, every statement form; minimal "
+                  "parentheses, the driver's fuel), `parse_sound` (the parser only produces well-formed trees), hence the well-formed trees "
+                  "are exactly the parser's image (`image_iff`) and printing is injective on them; left-associativity, tighter-tier-first, `..` loosest, "
                   "negative literal vs subtraction, parentheses override; `decide` theorems that the tier table extracted from the grammar "
                   "is the documented one. Tie at tree level; oracle: the generator's own tree must equal the implementation's dump for "
                   "minimal / full / redundant parenthesisations, exhaustive over operator sequences, CLI-confirmed with distinguishing values.",
@@ -108,12 +120,18 @@ CLAIMS.update({
              ref="§6 C10", technique="Lean 4 theorems relating heap equality to tree equality + all-pairs correspondence + law oracle"),
  "C12": dict(text="Lean theorems: key order is a strict total order, sorted association lists with insert/lookup are finite maps "
                   "(lookup-insert, size, extensionality), hence insertion-order independence; literal evaluation = fold of inserts in source "
-                  "order with later-wins, shorthand and spread; `.k` and `[\"k\"]` read/assign/op-assign coincide; `for` visits ascending keys. "
+                  "order with later-wins, shorthand and spread; `.k` and `[\"k\"]` read/assign/op-assign coincide; `for` visits ascending keys; "
+                  "global invariant: every object cell of every reachable state — also after an error — is sorted "
+                  "(`objects_always_sorted`, `reachable_sorted`, all 23 evaluator functions), so the key-order theorems hold without "
+                  "hypothesis for reached states. "
                   "Tie + Python dict oracle over key histories in all insertion orders.",
              ref="§6 C12", technique="Lean 4 finite-map theorems on the object model + permutation-exhaustive history correspondence + dict oracle"),
  "C13": dict(text="Lean theorems: list/object destructuring binds positions/names, collect is `drop n` in a fresh cell and lossless, spread is "
                   "concatenation, `f(xs..)` = `f(xs[0],…)`, arity rule incl. rest parameter, same binding engine for `:=`, `=`, `for` and "
-                  "parameters, shape errors; nested patterns with computed keys only at depth 1 (`bind_nested` open). Tie + Python destructuring "
+                  "parameters, shape errors; `bind_nested`: for arbitrarily nested declaration patterns (variables, `_`, lists with rest, objects "
+                  "with shorthand / literal keys / rest) the engine equals a pure matcher `pmatch`, succeeds iff the declarative "
+                  "projection exists with fresh distinct names, binds every leaf to its projection, allocates exactly the rest cells and "
+                  "changes nothing else; exact error at every depth (computed keys and index/property targets stay at depth 1). Tie + Python destructuring "
                   "reference and in-language round-trip laws over patterns × sources × positions. Known finding K3 reported as KNOWN-FINDING.",
              ref="§6 C13", technique="Lean 4 bind/spread theorems + pattern×source exhaustive correspondence + Python reference oracle"),
  "C14": dict(text="Lean theorems: arguments evaluated once left to right before the callee, arity rule, parameters live in a fresh scope cell "
